@@ -11,6 +11,7 @@ exit 0: every variant behaved as expected;  exit 2: SELFTEST-FAILED lines.
 import argparse
 import json
 import os
+import re
 import shutil
 import subprocess
 import sys
@@ -80,7 +81,7 @@ def run_variant(v):
 
 
 def run(prop=None, only=None, jobs=8, verbose=False):
-    vs = [v for v in VARIANTS if (prop is None or v['prop'] == prop) and (only is None or v['id'] == only)]
+    vs = [v for v in VARIANTS if (prop is None or v['prop'] == prop) and (only is None or re.search(only, v['id']))]
     results = []
     with ThreadPoolExecutor(max_workers=jobs) as ex:
         for v, status, info, out in ex.map(run_variant, vs):
